@@ -16,7 +16,7 @@ META = {
             "with regular and irregular dask chunks. Non-trivial: partial overlap, a flipped geometry, a different CRS, or "
             "irregular chunks. Distinct = distinct canonical input.",
     "assumptions": ["target pixel centres are mapped to the source CRS by the harness with pyproj (parameter class)",
-                    "for geostationary sources, source pixels within 0.2 % of the disk radius of the Earth-disk edge are not counted as needed",
+                    "for geostationary sources, source pixels within 0.1 % of the disk radius (the library keeps 1e-4 rad, about 0.07 %) of the Earth-disk edge are not counted as needed",
                     "the soundness of the 10-vertices-per-side polygon + buffer for curved reprojections is decided per pair by this oracle, not proved"],
 }
 
@@ -47,7 +47,7 @@ def _geos_margin_filter(src, c, r):
     h = get_geostationary_height(src.crs)
     x, y = src.get_projection_coordinates_from_array_coordinates(c, r)
     rad = (np.asarray(x) / (xa * h)) ** 2 + (np.asarray(y) / (ya * h)) ** 2
-    keep = rad <= (1 - 0.004) ** 2
+    keep = rad <= (1 - 0.001) ** 2
     return c[keep], r[keep]
 
 
@@ -172,6 +172,31 @@ def _pairs(ctx):
     out.append(("laea_eu", src, "t_rim_right", kc.mk_area(laea, 6, 5, (2.0e6 - 0.4 * px, -2.0e5, 2.0e6 - 0.4 * px + 6 * 20000.0, -1.0e5))))
     out.append(("laea_eu", src, "t_rim_top", kc.mk_area(laea, 5, 6, (1.0e5, 1.5e6 - 0.35 * px, 2.0e5, 1.5e6 - 0.35 * px + 6 * 15000.0))))
     out.append(("laea_eu", src, "t_rim_left_bottom", kc.mk_area(laea, 4, 4, (-2.0e6 - 3 * 25000.0, -1.5e6 - 3 * 25000.0, -2.0e6 + 0.3 * px, -1.5e6 + 0.3 * px))))
+    # CRSs given as EPSG codes (authority axis order northing/easting or lat/lon): the same grids, spelled differently
+    for tn, code, tw, th, te in (("t_epsg4326", "EPSG:4326", 8, 6, (4.0, 45.0, 20.0, 60.0)), ("t_epsg3035", "EPSG:3035", 7, 9, (4.0e6, 2.9e6, 4.7e6, 3.6e6)),
+                                 ("t_epsg32633", "EPSG:32633", 6, 6, (2.0e5, 5.4e6, 8.0e5, 6.0e6))):
+        for sn, sp, sw, sh, se in (src_specs[0], src_specs[1], src_specs[4], src_specs[5]):
+            out.append((sn, kc.mk_area(sp, sw, sh, se), tn, kc.mk_area(code, tw, th, te)))
+    out.append(("epsg3035_src", kc.mk_area("EPSG:3035", 70, 60, (2.5e6, 1.5e6, 6.0e6, 4.5e6)), "t_laea", kc.mk_area(laea, 9, 7, (-6.0e5, -4.0e5, 6.0e5, 5.0e5))))
+    out.append(("epsg4326_src", kc.mk_area("EPSG:4326", 72, 36, (-30.0, 30.0, 42.0, 66.0)), "t_epsg3035", kc.mk_area("EPSG:3035", 7, 9, (4.0e6, 2.9e6, 4.7e6, 3.6e6))))
+    # a full-resolution geostationary disk (3 km pixels) and small targets just inside the Earth-disk edge, all around the disk: the
+    # disk polygon the slicer intersects with must follow the limb to well under a pixel
+    from pyresample.geometry import get_geostationary_angle_extent
+    from pyresample.utils.proj4 import get_geostationary_height
+    fine = kc.mk_area(geos, 3712, 3712, (-5570248.4, -5567248.0, 5567248.0, 5570248.4))
+    xa, ya = get_geostationary_angle_extent(fine)
+    hh = get_geostationary_height(fine.crs)
+    rr = ctx.rng
+    for k in range(6 if ctx.quick else 40):
+        th_ = rr.uniform(0, 2 * np.pi)
+        f = rr.uniform(0.9945, 0.9965)
+        cx_, cy_ = f * xa * hh * np.cos(th_), f * ya * hh * np.sin(th_)
+        half = rr.choice([6000.0, 9000.0])
+        n_ = rr.choice([8, 12])
+        out.append(("geos_fine", fine, f"t_geos_limb_{np.degrees(th_):.1f}deg", kc.mk_area(geos, n_, n_, (cx_ - half, cy_ - half, cx_ + half, cy_ + half))))
+        lo_, la_ = fine.get_lonlat_from_projection_coordinates(cx_, cy_)
+        if np.isfinite(lo_) and np.isfinite(la_) and abs(la_) < 80:
+            out.append(("geos_fine", fine, f"t_ll_limb_{np.degrees(th_):.1f}deg", kc.mk_area(ll, 6, 6, (float(lo_) - 0.6, float(la_) - 0.6, float(lo_) + 0.6, float(la_) + 0.6))))
     s2 = kc.mk_area(stere, 60, 50, (-2.0e6, -5.0e6, 2.5e6, -1.5e6))                   # 75 x 70 km pixels
     out.append(("stere_eu", s2, "t_rim_stere_bottom", kc.mk_area(stere, 6, 4, (0.0, -5.0e6 - 3 * 20000.0, 1.2e5, -5.0e6 + 0.4 * 70000.0))))
     return out
@@ -277,6 +302,10 @@ def suite_swath(ctx):
     # long thin targets: they cross the (rotated) swath's chunk grid along either diagonal
     targets.append(kc.mk_area({"proj": "laea", "lat_0": 50, "lon_0": 10, "ellps": "WGS84"}, 14, 3, (-8.5e5, -1.0e5, 8.5e5, 1.0e5)))
     targets.append(kc.mk_area({"proj": "laea", "lat_0": 50, "lon_0": 10, "ellps": "WGS84"}, 3, 14, (-1.0e5, -8.5e5, 1.0e5, 8.5e5)))
+    # target CRSs given as EPSG codes whose authority axis order is lat/lon or northing/easting
+    targets.append(kc.mk_area("EPSG:4326", 6, 5, (6.0, 47.0, 14.0, 53.0)))
+    targets.append(kc.mk_area("EPSG:3035", 6, 6, (4.1e6, 2.8e6, 4.6e6, 3.3e6)))
+    targets.append(kc.mk_area("EPSG:32633", 5, 5, (3.0e5, 5.3e6, 7.0e5, 5.7e6)))
     combos = [(a_, ch_) for a_ in (30, -30) for ch_ in chunkings]
     if ctx.quick:
         combos = [(30, chunkings[1]), (-30, chunkings[2]), (30, chunkings[2])] + r.sample(combos, 2)
@@ -286,7 +315,7 @@ def suite_swath(ctx):
         lons, lats = base.get_lonlat_from_projection_coordinates(rx, ry)
         sw = SwathDefinition(xr.DataArray(da.from_array(lons, chunks=ch), dims=("y", "x")), xr.DataArray(da.from_array(lats, chunks=ch), dims=("y", "x")))
         for ti, tgt in enumerate(targets):
-            inp = {"swath_shape": [n, n], "swath_rotation_deg": ang_deg, "chunks": [list(ch[0]), list(ch[1])], "target_extent": [float(v) for v in tgt.area_extent], "target_crs": str(tgt.crs.to_dict().get("proj"))}
+            inp = {"swath_shape": [n, n], "swath_rotation_deg": ang_deg, "chunks": [list(ch[0]), list(ch[1])], "target_extent": [float(v) for v in tgt.area_extent], "target_crs": str(tgt.crs.to_dict().get("proj")), "target_crs_epsg": tgt.crs.to_epsg()}
             # needed swath pixels: nearest swath pixel to every target centre (brute force), if within one pixel spacing
             tlo, tla = kc.lonlats(tgt)
             d, sv, tv = kc.dist_matrix(lons.ravel(), lats.ravel(), tlo.ravel(), tla.ravel())
